@@ -33,6 +33,8 @@ func main() {
 		os.Exit(cmdAll(os.Args[2:]))
 	case "lemmas":
 		os.Exit(cmdLemmas(os.Args[2:]))
+	case "locals":
+		os.Exit(cmdLocals())
 	default:
 		usage()
 	}
